@@ -2102,11 +2102,26 @@ CK_RV SoftHSM::C_FindObjects(CK_SESSION_HANDLE hSession, CK_OBJECT_HANDLE_PTR ph
 	FindOperation *findOp = session->getFindOp();
 	if (findOp == NULL) return CKR_GENERAL_ERROR;
 
-	// Ask the find operation to retrieve the object handles
-	*pulObjectCount = findOp->retrieveHandles(phObject,ulMaxObjectCount);
+	// The handles were collected by C_FindObjectsInit. Hand out only those
+	// that still denote an object: it may have been destroyed, its session
+	// closed or the user logged out in the meantime.
+	CK_ULONG ulCount = 0;
+	while (ulCount < ulMaxObjectCount)
+	{
+		CK_OBJECT_HANDLE hObject;
 
-	// Erase the object handles from the find operation.
-	findOp->eraseHandles(0,*pulObjectCount);
+		// Ask the find operation to retrieve the next object handle
+		if (findOp->retrieveHandles(&hObject, 1) == 0) break;
+
+		// Erase the object handle from the find operation.
+		findOp->eraseHandles(0, 1);
+
+		OSObject* object = (OSObject*)handleManager->getObject(hObject);
+		if (object == NULL_PTR || !object->isValid()) continue;
+
+		phObject[ulCount++] = hObject;
+	}
+	*pulObjectCount = ulCount;
 
 	return CKR_OK;
 }
